@@ -136,6 +136,15 @@ class Analysis:
 
     def floor(self, rule, what, count, minimum):
         """A rule that matches fewer sites than confirmed by hand is broken, not passing."""
+        if count == 0 and minimum >= 1:
+            # nothing at all has the shape: the behaviour the rule is about is gone from the
+            # function (no path routes to the server any more, no path fires the event, ...)
+            self.violated(rule + '.present' if '.' not in rule else rule,
+                          'the code still does what the rule is about: %s' % what, None,
+                          'absent:%s' % what,
+                          'no path / site of the analysed functions matches (%d needed)' % minimum,
+                          'the behaviour the rule checks is not there any more')
+            return
         if count < minimum:
             raise AnalysisError('%s: instance floor not met for %s: matched %d < %d'
                                 % (rule, what, count, minimum))
